@@ -87,3 +87,53 @@ impl Model {
             .sum()
     }
 }
+
+impl Model {
+    /// The same program with constant `from` moved to position `to` (all references renumbered).
+    /// Method constants keep their relative order except for the moved one, so the caller must
+    /// make sure the layout stays meaningful (an entry method that is no longer last must end
+    /// in `return`).
+    pub fn with_const_moved(&self, from: usize, to: usize) -> Model {
+        let n = self.consts.len();
+        if from >= n || to >= n || from == to {
+            return self.clone();
+        }
+        // new order of old indices
+        let mut order: Vec<usize> = (0..n).collect();
+        let x = order.remove(from);
+        order.insert(to, x);
+        let mut new_of_old = vec![0u16; n];
+        for (new, old) in order.iter().enumerate() {
+            new_of_old[*old] = new as u16;
+        }
+        let m = |i: u16| -> u16 { new_of_old.get(i as usize).copied().unwrap_or(i) };
+        let ins = |i: &Ins| -> Ins {
+            match i {
+                Ins::Label(a) => Ins::Label(m(*a)),
+                Ins::Lit(a) => Ins::Lit(m(*a)),
+                Ins::Print(a, k) => Ins::Print(m(*a), *k),
+                Ins::Object(a) => Ins::Object(m(*a)),
+                Ins::GetSlot(a) => Ins::GetSlot(m(*a)),
+                Ins::SetSlot(a) => Ins::SetSlot(m(*a)),
+                Ins::CallSlot(a, k) => Ins::CallSlot(m(*a), *k),
+                Ins::Call(a, k) => Ins::Call(m(*a), *k),
+                Ins::SetGlobal(a) => Ins::SetGlobal(m(*a)),
+                Ins::GetGlobal(a) => Ins::GetGlobal(m(*a)),
+                Ins::Branch(a) => Ins::Branch(m(*a)),
+                Ins::Goto(a) => Ins::Goto(m(*a)),
+                other => other.clone(),
+            }
+        };
+        let consts = order
+            .iter()
+            .map(|old| match &self.consts[*old] {
+                Const::Slot(a) => Const::Slot(m(*a)),
+                Const::Class(ms) => Const::Class(ms.iter().map(|a| m(*a)).collect()),
+                Const::Method { name, nargs, nlocals, code } => Const::Method { name: m(*name), nargs: *nargs, nlocals: *nlocals, code: code.iter().map(&ins).collect() },
+                other => other.clone(),
+            })
+            .collect();
+        Model { consts, globals: self.globals.iter().map(|a| m(*a)).collect(), entry: m(self.entry) }
+    }
+}
+
